@@ -85,6 +85,47 @@ Assign(i)           == Born(i) /\ EnAssign(D(i), M(i))   /\ Upd(i, DoAssign(D(i)
 TrigDone(i)         == Born(i) /\ EnTrigDone(D(i), M(i)) /\ Upd(i, DoTrigDone(D(i), M(i)))
 Unwind(i)           == Born(i) /\ EnUnwind(D(i), M(i))   /\ Upd(i, DoUnwind(D(i), M(i)))
 
+(***************************************************************************)
+(* A callback of instance i sends an event to ANOTHER instance j (composite *)
+(* machines, listeners that forward).  Python's call stack makes this a    *)
+(* chain: i's callback waits while j runs the event to completion, unless  *)
+(* j is itself further down the chain (it is busy): then, in RTC mode, the *)
+(* event is only queued on j and the call returns None at once.            *)
+(***************************************************************************)
+XCaller(i, c) == /\ Born(i) /\ TopIs(M(i), "trig")
+                 /\ IsOpen(Top(M(i)), c) /\ CanAct(D(i), Top(M(i)), c)
+                 /\ (~M(i).raising \/ M(i).async)
+SetOpen(m, c, w, j) ==
+    LET f == Top(m)
+        o == OpenOf(f, c)
+    IN SetTop(m, [f EXCEPT !.open = (@ \ {o}) \cup {[o EXCEPT !.wait = w, !.xto = j]}])
+\* j idle: the event starts on j now (same as an outside call on j, but i stays where it is)
+XCall(i, c, j, ev, gv) ==
+    /\ i # j /\ Born(j) /\ XCaller(i, c) /\ OpenOf(Top(M(i)), c).wait = "no"
+    /\ Idle(M(j))
+    /\ insts' = [insts EXCEPT ![i].m = SetOpen(M(i), c, "xpending", j),
+                              ![j].m = DoExtCall(D(j), M(j), ev, gv)]
+    /\ UNCHANGED classes
+\* j busy (further down the chain) and RTC: put on j's queue, j's try-acquire fails, None comes back
+XQueue(i, c, j, ev) ==
+    /\ i # j /\ Born(j) /\ XCaller(i, c) /\ OpenOf(Top(M(i)), c).wait = "no"
+    /\ M(j).alive /\ M(j).stack # <<>> /\ M(j).opt.rtc
+    /\ LET td == [ev |-> ev, init |-> FALSE, id |-> M(j).qid] IN
+       insts' = [insts EXCEPT ![i].m = SetOpen(M(i), c, "xready", j),
+                              ![j].m = [M(j) EXCEPT !.qid = @ + 1, !.queue = Append(@, td)]]
+    /\ UNCHANGED classes
+\* j has finished: its outcome goes to i's callback (which catches exceptions), j is idle again
+XOut(i, c) == LET o == OpenOf(Top(M(i)), c) IN
+              IF o.wait = "xready" THEN RetOut(NoRes) ELSE M(o.xto).out
+XRet(i, c) ==
+    /\ XCaller(i, c)
+    /\ LET o == OpenOf(Top(M(i)), c) IN
+       \/ /\ o.wait = "xpending" /\ EnReturn(M(o.xto))
+          /\ insts' = [insts EXCEPT ![i].m = SetOpen(M(i), c, "no", 0), ![o.xto].m = DoReturn(M(o.xto))]
+       \/ /\ o.wait = "xready"
+          /\ insts' = [insts EXCEPT ![i].m = SetOpen(M(i), c, "no", 0)]
+    /\ UNCHANGED classes
+
 \* the engine's own (unobservable) steps
 Internal(i) == \/ LoopPop(i) \/ LoopExit(i) \/ Select(i) \/ GuardFail(i)
                \/ Advance(i) \/ Assign(i) \/ TrigDone(i) \/ Unwind(i)
@@ -113,7 +154,11 @@ ActCurOnlyInAssign  == \A i \in Slots : SameInst(i) => StepCurChangesOnlyInAssig
 ActPhaseOrder       == \A i \in Slots : SameInst(i) => StepPhaseOrder(M(i), insts'[i].m)
 ActQueueFIFO        == \A i \in Slots : SameInst(i) => StepQueueFIFO(M(i), insts'[i].m)
 ActFailureState     == \A i \in Slots : SameInst(i) => StepFailureState(D(i), M(i), insts'[i].m)
-\* C12/C16/C17: a step changes at most one instance and never the class table
+\* C12/C16/C17: a step changes at most one instance and never the class table; the one exception is the
+\* hand-over of a cross-instance send, which touches the waiting callback of the caller and the callee
+XWaits(is, i, j) == /\ is[i].cls # 0 /\ is[i].m.stack # <<>>
+                    /\ \E k \in DOMAIN is[i].m.stack : \E o \in is[i].m.stack[k].open : o.xto = j
 ActIsolation == /\ classes' = classes
-                /\ \A i, j \in Slots : (i # j /\ insts'[i] # insts[i]) => insts'[j] = insts[j]
+                /\ \A i, j \in Slots : (i # j /\ insts'[i] # insts[i] /\ insts'[j] # insts[j])
+                       => (XWaits(insts, i, j) \/ XWaits(insts', i, j) \/ XWaits(insts, j, i) \/ XWaits(insts', j, i))
 =============================================================================
